@@ -16,6 +16,22 @@ open NV.CFG NV.Gen
 theorem gen_cert_ok :
     (ProxyCFG.all.all fun e => check e.2.2.2.2 e.2.1 e.2.2.1 e.2.2.2.1) = true := by decide
 
+/-- **one pool for every listener.** `ListenAndServe` creates exactly one semaphore, at the top
+level of the function (not per address, not per goroutine), with capacity
+`p.MaxInflightRequests`; every `serveUDP` and `serveTCP` it starts is given that very channel and
+`serveTCP` hands it on to every `serveTCPConn`. This is the hypothesis under which the single
+K-unit pool of the `NV.Sem` system (`inflight_le_K`, `concurrent_handlers_le_K`) describes the
+daemon as a whole: two pools of K units each would satisfy every per-function certificate and
+still process 2K queries at once. -/
+theorem gen_single_semaphore :
+    ProxyCFG.semMakes.length = 1 ∧
+    (ProxyCFG.semMakes.all fun m => m.2.1 == "p.MaxInflightRequests" && m.2.2 == 0) = true ∧
+    2 ≤ ProxyCFG.semUses.length ∧
+    (ProxyCFG.semUses.all fun u => ProxyCFG.semMakes.map (·.1) == [u.2]) = true ∧
+    (ProxyCFG.semUses.any fun u => u.1 == "serveUDP") = true ∧
+    (ProxyCFG.semUses.any fun u => u.1 == "serveTCP") = true ∧
+    ProxyCFG.semPassedToConn = true := by decide
+
 /-- the extraction is not vacuous: the listener loops acquire and hand units to handlers, the
 handlers install a deferred release, and handlers are the `strict` (panic-safe) programs. -/
 theorem gen_nonvacuous :
